@@ -367,6 +367,15 @@ func keyString() gcKey[string] {
 	return gcKey[string]{"alpha/string", func(i int) string { return heapString("key-", uint64(i*7919)) }, func(k string) string { return k }, noScribble[string], true,
 		func(a, b string) bool { return a < b }}
 }
+
+// keyLongPath: keys sharing a path longer than any inner node (checkptr sees
+// every slice built over a node's inline bytes).
+func keyLongPath() gcKey[string] {
+	return gcKey[string]{"alpha/string-long-shared-path", func(i int) string {
+		return strings.Repeat("p", 120) + strings.Repeat("q", 200*(i%2)) + heapString("-", uint64(i*7919))
+	}, func(k string) string { return k }, noScribble[string], true, func(a, b string) bool { return a < b }}
+}
+
 func keyBytes() gcKey[[]byte] {
 	return gcKey[[]byte]{"alpha/bytes", func(i int) []byte { return []byte(heapString("kb-", uint64(i*104729))) }, func(k []byte) string { return string(k) },
 		func(k []byte) {
@@ -420,6 +429,9 @@ func c18Combos[V any](us *[]engine.Unit, gv gcVal[V], seed uint64, nOps int, mod
 	}
 	add("alpha-string", func(res *ev.Result, unit string) {
 		gcRun(res, unit, func() art.Tree[string, V] { return art.NewAlphaSortedTree[string, V]() }, keyString(), gv, seed, nOps)
+	})
+	add("alpha-string-long-path", func(res *ev.Result, unit string) {
+		gcRun(res, unit, func() art.Tree[string, V] { return art.NewAlphaSortedTree[string, V]() }, keyLongPath(), gv, seed, nOps)
 	})
 	add("alpha-bytes", func(res *ev.Result, unit string) {
 		gcRun(res, unit, func() art.Tree[[]byte, V] { return art.NewAlphaSortedTree[[]byte, V]() }, keyBytes(), gv, seed, nOps)
